@@ -876,6 +876,141 @@ def c20(chk, tier):
     chk.extra["fixture_locality_skipped_nesting_changed"] = skipped
 
 
+REQUIRED_PARAM = ["TYPE", "ENUM", "MACRO", "PASTE", "SERVER", "URL", "TAG", "Tags", "INCLUDE", "Title", "Version", "BaseUrl",
+                  "Method", "Protocol", "JSIGHT"]
+SINGLETON_CHILD = ["Title", "Version", "Description", "Query", "Path", "Protocol", "Body", "Headers", "BaseUrl", "Params", "Result", "Request"]
+NAMED_DECL = ["TYPE", "ENUM", "MACRO", "SERVER", "TAG", "URL"]
+
+
+def _directive_spans(fx):
+    """[(keyword text, line start, keyword begin, end of the directive = line start of the next keyword or ')' line, lexeme index)]
+    for keywords that begin their line"""
+    d = fx.data
+    starts = [(ls, b, k, t) for (ls, b, k, t, pt) in fx.kwl]
+    res = []
+    for i, (ls, b, k, t) in enumerate(starts):
+        if t != KW:
+            continue
+        e = fx.lex[k][2]
+        end = starts[i + 1][0] if i + 1 < len(starts) else len(d)
+        res.append((d[b:e + 1].decode("latin1"), ls, b, end, k))
+    return res
+
+
+def c11(chk, tier):
+    """single faults injected into accepted single-file fixtures by text edits at positions named by the real lexeme stream
+    and forest: a required parameter deleted, a singleton child written twice, a named top-level declaration written
+    twice.  The project must be rejected and the diagnostic must lie inside the directive at fault (either copy of a
+    duplicate; for a directive pasted from a macro also the PASTE line)."""
+    import rel
+    thorough = tier == "thorough"
+    fxs = load(tier, want_ok=True, limit=None if thorough else 200, salt=11, single_file=True)
+    rnd = random.Random(seed() * 31 + 11)
+    cases, meta = [], {}
+    for n, fx in enumerate(fxs):
+        d = fx.data
+        if fx.nl is None or not d.endswith((b"\n", b"\r")):
+            continue
+        spans = _directive_spans(fx)
+        flat = preorder(fx.forest)
+        bynode = {nd["b"]: (nd, par) for nd, par, _ in flat if nd["f"] == fx.root}
+        paste_lines = [(ls, end) for (kw, ls, b, end, k) in spans if kw == "PASTE"]
+        macro_spans = []
+        tb = top_blocks(fx)
+        if tb:
+            macro_spans = [(st, en) for (st, en, nd) in tb[0] if nd["k"] == "MACRO"]
+        cands = []
+        order = [nd for nd, _, _ in flat]
+        posn = {nd["b"]: i for i, nd in enumerate(order)}
+        lsof = {b: ls for (kw, ls, b, end, k) in spans}
+
+        def subtree_end(b):
+            """line start of the first directive after the subtree of the directive at b"""
+            nd = bynode[b][0]
+            after = posn[b] + len(preorder([nd]))
+            if after < len(order) and order[after]["b"] in lsof:
+                return lsof[order[after]["b"]]
+            return len(d)
+        for (kw, ls, b, end, k) in spans:
+            if b not in bynode:
+                continue
+            send = max(end, subtree_end(b))
+            # 1. a required parameter deleted (all parameters of the line; the annotation stays)
+            if kw in REQUIRED_PARAM:
+                params = []
+                j = k + 1
+                le = line_end(d, b)
+                while j < len(fx.lex) and fx.lex[j][0] == PARAM and fx.lex[j][1] < le:
+                    params.append(fx.lex[j])
+                    j += 1
+                if params:
+                    pb, pe = params[0][1], params[-1][2]
+                    cut_from = fx.lex[k][2] + 1
+                    cut_to = pe + 1
+                    if d[cut_to:cut_to + 1] == b'"':
+                        cut_to += 1
+                    cut = cut_to - cut_from
+                    sites = [(ls, send - cut + 1)]
+                    # the name disappears with the parameter: a directive that refers to it is at fault as well
+                    name = d[pb:pe + 1].split()[0].strip(b'"') if d[pb:pe + 1].split() else b""
+                    if name.startswith(b"@"):
+                        for (kw2, ls2, b2, end2, k2) in spans:
+                            if b2 != b and re.search(re.escape(name) + rb"(?![A-Za-z0-9_])", d[ls2:end2]):
+                                sh = -cut if ls2 > ls else 0
+                                sites.append((ls2 + sh, end2 + sh))
+                    if any(ls <= pl < send for (pl, _) in paste_lines):
+                        # what the directive's subtree pastes belongs to it: a fault that shows in the pasted lines may be
+                        # located in the macro they come from
+                        sites += [(ms + (-cut if ms > ls else 0), me + (-cut if ms > ls else 0)) for (ms, me) in macro_spans]
+                    cands.append(("missing_param", kw, d[:cut_from] + d[cut_to:], sites, ls))
+            # 2. a singleton child written twice
+            if kw in SINGLETON_CHILD and bynode[b][1] is not None and not bynode[b][0]["x"]:
+                nd = bynode[b][0]
+                if not nd["c"] and (fx.lex[k + 1][0] if k + 1 < len(fx.lex) else -1) != OPEN:
+                    inside = [x for x in fx.lex if b <= x[1] < end]
+                    if not (inside and inside[-1][0] == TEXT):      # bare text would swallow nothing, but keep clear of it
+                        cands.append(("dup_child", kw, d[:end] + d[ls:end] + d[end:], [(ls, end + (end - ls) + 1)], ls))
+        if tb:
+            for (st, en, nd) in tb[0]:
+                if nd["k"] in NAMED_DECL:
+                    cands.append(("dup_name", nd["k"], d + d[st:en], [(st, en), (len(d), len(d) + en - st)], st))
+        rnd.shuffle(cands)
+        for j, (fault, kw, data, sites, at) in enumerate(cands[:(12 if thorough else 4)]):
+            # a fault inside a macro body may be reported at the PASTE lines that bring it in
+            if any(st <= at < en for (st, en) in macro_spans):
+                sites = sites + [(ls2 + (len(data) - len(d) if ls2 > at else 0), e2 + (len(data) - len(d) if ls2 > at else 0)) for (ls2, e2) in paste_lines]
+            cid = "ff%d_%d" % (n, j)
+            cases.append(case(cid, {fx.root: data}, fx.root))
+            meta[cid] = (fx, fault, kw, data, sites)
+    obs = harness("run", cases)
+    kinds = {}
+    for cid, (fx, fault, kw, data, sites) in meta.items():
+        o = obs[cid]
+        chk.evaluations += 1
+        chk.traces += 1
+        chk.nontrivial.add(("fx", fx.name, fault, data))
+        kinds[fault + ":" + kw] = kinds.get(fault + ":" + kw, 0) + 1
+        bad, what = None, ""
+        if o["outcome"] in ("panic", "fatal", "timeout"):
+            continue          # C01's
+        if o["outcome"] != "error":
+            bad = "fault %s:%s injected into fixture %s, but the document was: %s" % (fault, kw, fx.name, rel.describe(o))
+            what = "not rejected"
+        else:
+            e = o["err"]
+            if not (e["file"].endswith(fx.root) and any(st <= e["index"] < en for (st, en) in sites)):
+                bad = "fault %s:%s in fixture %s rejected (%r) but the diagnostic at byte %d (line %d) is outside the directive(s) at fault %s" % (
+                    fault, kw, fx.name, e["msg"], e["index"], e["line"], sites)
+                what = "located elsewhere"
+        if bad:
+            sig = {"fault": fault, "via": "fixture", "what": what, "block": kw.lower(), "detail": "", "outcome": o["outcome"],
+                   "msg": (o.get("err") or {}).get("msg", ""), "frames": ",".join(o.get("frames") or []), "fixture": fx.name}
+            chk.violation("%s | document:\n%s" % (bad, data.decode("latin1")[:1500]),
+                          {"kind": "fxfault", "fixture": fx.name, "root": fx.root, "fault": fault, "kw": kw, "sites": sites,
+                           "files_b": {fx.root: b64(data)}, "signature": sig}, sig)
+    chk.extra["fixture_faults_by_kind"] = kinds
+
+
 def replay(pid, rp):
     """re-runs a recorded fixture case and judges it by the rule of property pid"""
     import json
@@ -884,6 +1019,11 @@ def replay(pid, rp):
     chk = Check(pid, "quick")
     chk.evaluations = 1
     sig = rp.get("signature")
+    if rp["kind"] == "fxfault":
+        o = harness("run", [{"id": "b", "files": rp["files_b"], "root": rp["root"]}])["b"]
+        if o["outcome"] != "error" or not any(st <= o["err"]["index"] < en for (st, en) in rp["sites"]):
+            chk.violation("reproduced: %s" % rel.describe(o), rp, sig)
+        return chk.finish()
     if rp["kind"] == "fxban":
         o = harness("run", [{"id": "a", "files": rp["files_a"], "root": rp["root"]},
                             {"id": "b", "files": rp["files_a"], "root": rp["root"],
